@@ -237,7 +237,7 @@ WATCHER_DEFAULTS = dict(np=1, G=1.0, W=0.0, singleton=False, respawn=True, autos
 
 class Sim(object):
     def __init__(self, watchers, check_delay=1.0, warmup_delay=0.0, record_state=True, sockets=None,
-                 config_file=None):
+                 config_file=None, file_mode=False):
         """watchers: list of dicts {name, np, G, W, singleton, respawn, hooks:{name:(outcome,ignore)}...}"""
         global CUR
         CUR = self
@@ -270,8 +270,15 @@ class Sim(object):
         self._probing = False
         self._all_watchers = []
         self.config_file = config_file
+        self.file_mode = bool(file_mode)
+        self.file_specs = None        # what the configuration file says now (file mode)
+        self._tmpdir = None
         self.arb = None
-        self._build()
+        self._track_watchers()
+        if self.file_mode:
+            self._build_from_file()
+        else:
+            self._build()
 
     # ------------------------------------------------------------------ construction
     def make_watcher(self, spec):
@@ -289,6 +296,94 @@ class Sim(object):
         kw.update(spec.get("extra", {}))
         import shlex
         return circus.watcher.Watcher(spec["name"], spec.get("cmd", "simworker " + shlex.quote(spec["name"])), **kw)
+
+    # ---- file mode: the real Arbiter.load_from_config on an ini file written from the specs ---------------------
+    @staticmethod
+    def render_ini(specs, check_delay, warmup_delay):
+        out = ["[circus]", "check_delay = %g" % check_delay, "warmup_delay = %d" % int(warmup_delay),
+               "endpoint = sim://ctrl", "pubsub_endpoint = sim://pub", ""]
+        for sp in specs:
+            sp = dict(WATCHER_DEFAULTS, ver=1, **sp) if "ver" not in sp else dict(WATCHER_DEFAULTS, **sp)
+            out += ["[watcher:%s]" % sp["name"], "cmd = simworker %s v%d" % (sp["name"], sp["ver"]),
+                    "numprocesses = %d" % sp["np"], "warmup_delay = %d" % int(sp["W"]), "graceful_timeout = %g" % sp["G"],
+                    "singleton = %s" % sp["singleton"], "priority = %d" % sp["priority"],
+                    "autostart = %s" % sp["autostart"], "respawn = %s" % sp["respawn"],
+                    "stop_signal = %d" % sp["stop_signal"], "stop_children = %s" % sp["stop_children"],
+                    "max_retry = %d" % sp["max_retry"], "send_hup = %s" % sp["send_hup"], ""]
+        return "\n".join(out)
+
+    def write_file(self, specs):
+        self.file_specs = [dict(WATCHER_DEFAULTS, **dict({"ver": 1}, **sp)) for sp in specs]
+        with open(self.config_file, "w") as fh:
+            fh.write(self.render_ini(self.file_specs, self.check_delay, self.warmup_delay))
+
+    def file_records(self):
+        return [self._spec_record(sp) for sp in (self.file_specs or [])]
+
+    def _spec_record(self, sp):
+        return {"n": sp["name"], "ln": sp["name"].lower(), "np": sp["np"], "G": int(round(sp["G"] * 1000)),
+                "Gp": self.polls(sp["G"]), "Wt": int(round(sp["W"] * 10)), "retry": sp["max_retry"],
+                "W": int(round(sp["W"] * 1000)), "sing": bool(sp["singleton"]), "resp": bool(sp["respawn"]),
+                "auto": bool(sp["autostart"]), "prio": sp["priority"], "ssig": sp["stop_signal"],
+                "sch": bool(sp["stop_children"]), "hup": bool(sp["send_hup"]), "ver": int(sp.get("ver", 1))}
+
+    def _build_from_file(self):
+        import tempfile
+        self._tmpdir = tempfile.mkdtemp(prefix="simcfg-")
+        self.config_file = _real_os.path.join(self._tmpdir, "circus.ini")
+        self.wspecs = [dict(s, ver=s.get("ver", 1)) for s in self.wspecs]
+        self.write_file(self.wspecs)
+        A = circus.arbiter.Arbiter
+        orig = A.__init__
+        sim = self
+
+        def wrapped(self_, *a, **k):
+            k["context"] = FakeContext(sim)
+            return orig(self_, *a, **k)
+        A.__init__ = wrapped
+        try:
+            self.arb = A.load_from_config(self.config_file, loop=self.io)
+        finally:
+            A.__init__ = orig
+        self._instrument_reload()
+        # the model's initial watcher list is the arbiter's (get_config does not keep the file's order)
+        order = [w.name for w in self.arb.watchers]
+        self.wspecs.sort(key=lambda sp: order.index(sp["name"]) if sp["name"] in order else len(order))
+        self.rec("init", cfg=self.header())
+
+    def _instrument_reload(self):
+        """reload_from_config runs its loops over Python sets: log the order it takes them in (one line per
+        get_watcher / get_watcher_config call made BY reload_from_config; nothing in circus is changed)"""
+        arb, sim = self.arb, self
+        gw, gc = arb.get_watcher, arb.get_watcher_config
+
+        def get_watcher(name):
+            if sys._getframe(1).f_code.co_name == "reload_from_config":
+                sim.rec("selw", w=str(name).lower())
+            return gw(name)
+
+        def get_watcher_config(cfg, name):
+            if sys._getframe(1).f_code.co_name == "reload_from_config":
+                sim.rec("selc", w=str(name).lower())
+            return gc(cfg, name)
+        arb.get_watcher = get_watcher
+        arb.get_watcher_config = get_watcher_config
+
+    def _track_watchers(self):
+        """every Watcher built from a configuration dict is observable from then on (reload_from_config starts a
+        new watcher BEFORE it registers it)"""
+        sim = self
+        W = circus.watcher.Watcher
+        if not hasattr(W, "_verif_orig_lfc"):
+            W._verif_orig_lfc = W.load_from_config.__func__
+
+        def lfc(cls, config):
+            w = W._verif_orig_lfc(cls, config)
+            cur = CUR
+            if cur is not None and not any(w is x for x in cur._all_watchers):
+                cur._all_watchers.append(w)
+            return w
+        W.load_from_config = classmethod(lfc)
 
     def _build(self):
         ws = [self.make_watcher(s) for s in self.wspecs]
@@ -317,6 +412,7 @@ class Sim(object):
                         "resp": bool(s["respawn"]), "auto": bool(s["autostart"]), "prio": s["priority"],
                         "ssig": s["stop_signal"], "sch": bool(s["stop_children"]),
                         "mage": s["max_age"], "hup": bool(s["send_hup"]), "od": bool(s["on_demand"]),
+                        "ver": int(s.get("ver", 1)),
                         "hooks": [{"h": h, "o": (v[0][:-5] if v[0].endswith("+slow") else v[0]) if isinstance(v[0], str) else "seq",
                                    "ig": bool(v[1])}
                                   for h, v in sorted((s.get("hooks") or {}).items())]}
@@ -644,6 +740,7 @@ class Sim(object):
                  "warmup_delay", 0), (int, float)) else 0,
              "addsing": bool((pr.get("options") or {}).get("singleton")) if isinstance(pr.get("options"), dict) else False}
         q["opts"] = self._set_opts(pr.get("options")) if cmd == "set" else []
+        q["file"] = self.file_records() if cmd == "reloadconfig" else []
         q["matches"] = []
         if q["pattern"]:
             import fnmatch
@@ -748,3 +845,6 @@ class Sim(object):
         finally:
             if CUR is self:
                 CUR = None
+            if self._tmpdir:
+                import shutil
+                shutil.rmtree(self._tmpdir, ignore_errors=True)
